@@ -72,6 +72,9 @@ type ProcResult struct {
 	ClockJumps     int            `json:"clock_jumps"`
 	TimersFired    int            `json:"timers_fired"`
 	SimNanos       int64          `json:"simulated_nanoseconds"`
+	// UnownedChoices counts decisions the Go runtime took at random inside the library during this
+	// process (several ready select cases, map ranges without a canonical key order).
+	UnownedChoices int `json:"unowned_choices"`
 	// Stuck: a run ended with tasks waiting on channels nothing in the simulation serves (inconclusive).
 	Stuck string `json:"stuck,omitempty"`
 	Hot            [][]HotYield   `json:"hot,omitempty"`
